@@ -595,6 +595,7 @@ func Run(r *core.Run) {
 	// phase B, side by side: the specification's own properties on the bounded-exhaustive families
 	// (model checking; the casc family is exported as cases) and the seeded sheets interpreted by CssGen
 	var mcCases []*Case
+	var mcMembers []*seqMember // the label records of the sequence families (CssSeq.tla)
 	var mu sync.Mutex
 	var wg sync.WaitGroup
 	skipMC := os.Getenv("C12_SKIPMC") != "" // development only
@@ -612,6 +613,10 @@ func Run(r *core.Run) {
 				mu.Lock()
 				mcCases = append(mcCases, c)
 				mu.Unlock()
+			}, func(m *seqMember) {
+				mu.Lock()
+				mcMembers = append(mcMembers, m)
+				mu.Unlock()
 			})
 		}()
 	}
@@ -628,25 +633,49 @@ func Run(r *core.Run) {
 			impCases = runImportTLC(r, graphs, r.Pick(2, 1))
 		}()
 	}
-	// the sequence families of CssSeq.tla: model-checked, labelled, a label-first covering sample computed by CssGen
-	var seqCases []*Case
-	if !skipMC || os.Getenv("C12_SEQ") != "" {
-		wg.Add(1)
-		go func() {
-			defer wg.Done()
-			seqCases = runSeq(r)
-		}()
-	}
 	g := &gen{voc: voc, rng: rand.New(rand.NewSource(r.Seed))}
 	nSheets := r.Pick(240, 3500)
 	if v := os.Getenv("C12_N"); v != "" { // development only
 		fmt.Sscan(v, &nSheets)
 	}
 	sheets := g.Sheets(nSheets, r.Pick(4, 5))
+	// the sequence families: with a fresh label table the label-first covering sample is drawn now and computed with the sheets
+	cached := loadSeqLabels(r)
+	var seqIn []genInput
+	var seqFam map[string]string
+	if cached != nil && !skipMC {
+		seqIn, seqFam = seqSample(r, cached)
+	}
 	t0 := time.Now()
-	got := runGen(r, sheets, r.Pick(1, 2), r.Pick(2, 2))
-	r.Logf("CssGen: %d sheets -> %d cases in %.1fs", len(sheets), len(got), time.Since(t0).Seconds())
+	got := runGen(r, append(append([]genInput{}, sheets...), seqIn...), r.Pick(1, 2), r.Pick(2, 2))
+	r.Logf("CssGen: %d sheets + %d sequence-family members -> %d cases in %.1fs", len(sheets), len(seqIn), len(got), time.Since(t0).Seconds())
 	wg.Wait()
+	var seqCases []*Case
+	if !skipMC {
+		if cached != nil {
+			if a, b := seqFingerprint(cached), seqFingerprint(mcMembers); a != b {
+				r.Infra("spec/css_seq_labels.quick.json does not equal the labels CssMC exported (%d / %d members)", len(cached), len(mcMembers))
+			}
+		} else if len(mcMembers) == 0 {
+			r.Infra("CssMC exported no members of the sequence families")
+		} else {
+			if !r.Thorough() {
+				if os.Getenv("C12_WRITE_VOCAB") != "" {
+					writeSeqLabels(r, mcMembers)
+				} else {
+					r.Logf("spec/css_seq_labels.quick.json is stale; sample drawn after model checking")
+				}
+			}
+			seqIn, seqFam = seqSample(r, mcMembers)
+			t0 = time.Now()
+			for id, c := range runGen(r, seqIn, r.Pick(1, 2), r.Pick(3, 3)) {
+				got[id] = c
+			}
+			r.Logf("CssGen: %d sequence-family members in %.1fs", len(seqIn), time.Since(t0).Seconds())
+		}
+		seqCases = seqCasesOf(r, seqIn, seqFam, got)
+		r.Logf("sequence families: %d members model-checked, %d cases", len(mcMembers), len(seqCases))
+	}
 	sort.Slice(mcCases, func(i, j int) bool { return mcCases[i].Name < mcCases[j].Name })
 	r.Set("mc_family_sheets", len(mcCases))
 	var cases []*Case
@@ -677,8 +706,8 @@ func Run(r *core.Run) {
 			}
 		}
 		rng.Shuffle(len(casc), func(i, j int) { casc[i], casc[j] = casc[j], casc[i] })
-		if len(casc) > 350 {
-			casc = casc[:350]
+		if len(casc) > 260 {
+			casc = casc[:260]
 		}
 		mcCases = append(keep, casc...)
 	}
